@@ -15,6 +15,8 @@ def main():
         return 2
     props = [c["property_id"] for c in json.load(open(os.path.join(VERIF, "MANIFEST.json")))["checks"]]
     out = {}
+    # variants that do change one property (see seeded/equivalent/README.md): an alarm of that check is right
+    exc = json.load(open(os.path.join(VERIF, "seeded", "equivalent", "except.json")))
     for d in sorted(glob.glob(os.path.join(VERIF, "seeded", "equivalent", "*.diff"))):
         name = os.path.basename(d)[:-5]
         if only and not any(o in name for o in only):
@@ -37,7 +39,7 @@ def main():
         finally:
             subprocess.run(["git", "-C", REPO, "checkout", "--", "."])
         out[name] = res
-        alarms = {p: v for p, v in res.items() if v["exit"] != 0}
+        alarms = {p: v for p, v in res.items() if v["exit"] != 0 and p not in exc.get(name, [])}
         print(name, "ALARMS: %s" % alarms if alarms else "quiet on all %d checks" % len(res), flush=True)
         json.dump(out, open(os.path.join(VERIF, "work", "equivalents.json"), "w"), indent=1)
     return 0
